@@ -158,6 +158,25 @@ def _layout_cases():
     return out
 
 
+def fuzz_decode(fdp):
+    """bytes -> tiny exact-arithmetic case (brute-force oracle inside the target)."""
+    T = fdp.ConsumeIntInRange(1, 7)
+    kmax = max(1, min(5, int(60000 ** (1.0 / T))))
+    K = fdp.ConsumeIntInRange(1, kmax)
+    vector = fdp.ConsumeBool()
+    if vector:
+        beta = np.array([fdp.ConsumeIntInRange(0, 96) / 8.0 for _ in range(T)])
+    else:
+        beta = fdp.ConsumeIntInRange(0, 96) / 8.0
+    vals = [fdp.ConsumeIntInRange(-40, 40) / 8.0 for _ in range(T * K)]
+    return {"cls": "E", "shape": "fuzz", "cost": np.array(vals, dtype=np.float64).reshape(T, K), "beta": beta}
+
+
+def fuzz_seeds():
+    return [bytes([3, 2, 0, 8] + [10, 50, 50, 10, 10, 50]), bytes([5, 3, 1] + [4, 0, 16, 8, 2] + list(range(20, 35))),
+            bytes([1, 4, 0, 0, 1, 2, 3, 4]), bytes([6, 2, 0, 96] + [40, 41] * 6), bytes([2, 5, 1, 0, 0] + [7] * 10)]
+
+
 SUBCHECKS = [
     SubCheck(
         name="kernel_vs_exact_optimum",
@@ -168,5 +187,11 @@ SUBCHECKS = [
         shards={"quick": 3, "thorough": 8},
         modes=["jit", "nojit"],
         min_nontrivial_fraction=0.3,
+    ),
+    SubCheck(
+        name="kernel_coverage_guided_fuzz",
+        execute=execute, fuzz_decode=fuzz_decode, fuzz_seeds=fuzz_seeds,
+        budget={"quick": 8000, "thorough": 400000}, shards={"quick": 2, "thorough": 8},
+        modes=["nojit"], env={"NUMBA_DISABLE_JIT": "1"},
     ),
 ]
